@@ -27,9 +27,9 @@ Definition ref_shapes : list (string * string) := [
   ("Batch", "{ var v1 []Cmd for _, v2 := range v3 { if v2 == nil { continue } v1 = append(v1, v2) } switch len(v1) { case 0: return nil case 1: return v1[0] default: return func() Msg { return BatchMsg(v1) } } }");
   ("Sequence", "{ return func() Msg { return sequenceMsg(v1) } }");
   ("standardRenderer.start", "{ if r.ticker == nil { r.ticker = time.NewTicker(r.framerate) } else { r.ticker.Reset(r.framerate) } r.once = sync.Once{} go r.listen() }");
-  ("standardRenderer.stop", "{ r.once.Do(func() { r.done <- struct{}{} }) r.flush() r.mtx.Lock() defer r.mtx.Unlock() r.execute(ansi.EraseEntireLine) r.execute(""\r"") if r.useANSICompressor { if v1, v2 := r.out.(io.WriteCloser); v2 { _ = v1.Close() } } }");
-  ("standardRenderer.kill", "{ r.once.Do(func() { r.done <- struct{}{} }) r.mtx.Lock() defer r.mtx.Unlock() r.execute(ansi.EraseEntireLine) r.execute(""\r"") }");
-  ("standardRenderer.listen", "{ for { select { case <-r.done: r.ticker.Stop() return case <-r.ticker.C: r.flush() } } }");
+  ("standardRenderer.stop", "{ r.once.Do(func() { r.done <- struct{}{} r.stopTicker() }) r.flush() r.mtx.Lock() defer r.mtx.Unlock() r.execute(ansi.EraseEntireLine) r.execute(""\r"") if r.useANSICompressor { if v1, v2 := r.out.(io.WriteCloser); v2 { _ = v1.Close() } } }");
+  ("standardRenderer.kill", "{ r.once.Do(func() { r.done <- struct{}{} r.stopTicker() }) r.mtx.Lock() defer r.mtx.Unlock() r.execute(ansi.EraseEntireLine) r.execute(""\r"") }");
+  ("standardRenderer.listen", "{ for { select { case <-r.done: return case <-r.ticker.C: r.flush() } } }");
   ("shutdown", "{ p.cancel() p.handlers.shutdown() if p.cancelReader != nil { if p.cancelReader.Cancel() { if !v1 { p.waitForReadLoop() } } _ = p.cancelReader.Close() } if p.renderer != nil { if v1 { p.renderer.kill() } else { p.renderer.stop() } } _ = p.restoreTerminalState() p.finishOnce.Do(func() { close(p.finished) }) }");
   ("recoverFromPanic", "{ if v1 := recover(); v1 != nil { p.handlePanic(v1) } }");
   ("handlePanic", "{ p.shutdown(true) fmt.Printf(""Caught panic:\n\n%s\n\nRestoring terminal...\n\n"", v1) debug.PrintStack() }");
